@@ -83,6 +83,9 @@ func (s *stateRW) ReadState(r *http.Request) (authboss.ClientState, error) {
 		return nil, fmt.Errorf("sim: request without browser id")
 	}
 	b := s.w.Browsers[n]
+	if s.w.Cfg.NilEmptyState && len(s.jar(b)) == 0 {
+		return nil, nil
+	}
 	return &jarState{browser: n, vals: copyMap(s.jar(b))}, nil
 }
 
@@ -90,7 +93,13 @@ func (s *stateRW) WriteState(rw http.ResponseWriter, st authboss.ClientState, ev
 	s.w.seam("cs.write."+s.kind, "")
 	js, ok := st.(*jarState)
 	if !ok || js == nil {
-		return fmt.Errorf("sim: WriteState without state")
+		// nil state: the store finds its client through the response (a real
+		// store would set a cookie on it)
+		n, err := strconv.Atoi(rw.Header().Get(browserHeader))
+		if err != nil || n < 0 || n >= len(s.w.Browsers) {
+			return fmt.Errorf("sim: WriteState without state")
+		}
+		js = &jarState{browser: n}
 	}
 	b := s.w.Browsers[js.browser]
 	if cur := s.w.cur; cur != nil {
